@@ -3,7 +3,7 @@
    on a 3-row document. *)
 From Coq Require Import Floats.
 From GenqlV Require Import Base.Prelude Base.Fmt Base.Value Model.Ast Model.Like Model.Num Model.Eval Model.Exec.
-From GenqlV Require Import Spec.StageSpec Proofs.C07Mono Proofs.C07Blind Proofs.C07Lemmas Run.EngineRun.
+From GenqlV Require Import Spec.StageSpec Proofs.C07Mono Proofs.C07Blind Proofs.C07Up Proofs.C07Lemmas Run.EngineRun.
 Local Open Scope string_scope.
 
 Definition it (p : float) (w : string) : value := VObj [("p", VNum p); ("w", VStr w)].
@@ -177,23 +177,44 @@ Proof.
   split; [discriminate|]. exists 2%nat. vm_compute. reflexivity.
 Qed.
 
-(* ---------- why the outer query must not navigate back with `<-` (in the MODEL) ---------- *)
+(* ---------- an outer query that navigates back to its own CTE with `<-` ---------- *)
 (* WITH c AS (SELECT id FROM t WHERE n1 >= 2) SELECT id, (SELECT id FROM `<-`.c) AS x FROM c :
-   in the model the document handed to the subquery under `<-` does not hold the CTE, in the staged
-   run it holds the materialised rows *)
+   the data map handed to the subquery under `<-` still holds the thunk of c, so the subquery reads
+   the CTE; the staged run reads the materialised rows: the same.  (Before the thunks of the enclosing
+   query were modelled, the composed run of the model found no key c behind `<-` here.) *)
 Definition bk_inner : stmt :=
   SSelect (sel [] (FTable ["t"] "") (Some (ECmp OpGe (col "n1") (ENum 2%float))) [IExpr (col "id") "id"]).
 Definition bk_sub : stmt := SSelect (sel [] (FTable ["<-"; "c"] "") None [IExpr (col "id") "id"]).
 Definition bk_outer : select stmt :=
   sel [("c", bk_inner)] (FTable ["c"] "") None [IExpr (col "id") "id"; IExpr (ESub bk_sub) "x"].
 
-Example backref_to_cte_differs :
+Example backref_to_cte_agrees :
   avoids ["c"] bk_inner = true /\ blind_select bk_outer = false /\
   exec no_call no_join 4 (plain ex_d) (JStmt (SSelect bk_outer)) =
-    Ok (VArr [VObj [("id", VNum 1%float); ("x", VArr [])]; VObj [("id", VNum 3%float); ("x", VArr [])]]) /\
-  stage no_call no_join 3 "c" bk_inner bk_outer ex_d =
     Ok (VArr [VObj [("id", VNum 1%float); ("x", VArr [VObj [("id", VNum 1%float)]; VObj [("id", VNum 3%float)]])];
-              VObj [("id", VNum 3%float); ("x", VArr [VObj [("id", VNum 1%float)]; VObj [("id", VNum 3%float)]])]]).
+              VObj [("id", VNum 3%float); ("x", VArr [VObj [("id", VNum 1%float)]; VObj [("id", VNum 3%float)]])]]) /\
+  stage no_call no_join 3 "c" bk_inner bk_outer ex_d =
+    exec no_call no_join 4 (plain ex_d) (JStmt (SSelect bk_outer)).
+Proof. vm_compute. repeat split. Qed.
+
+(* ---------- why the outer query must not navigate back with `<-` ---------- *)
+(* WITH c AS (...) SELECT id, (SELECT `<-` AS p FROM dual) AS x FROM c : the back reference used
+   as a VALUE.  In the composed run the document behind `<-` has no entry c (a thunk is not part of
+   the value: WithoutCtes), in the staged run it holds the materialised rows.  The real engine
+   behaves the same way. *)
+Definition bv_sub : stmt := SSelect (sel [] FDual None [IExpr (ECol ["<-"]) "p"]).
+Definition bv_outer : select stmt :=
+  sel [("c", bk_inner)] (FTable ["c"] "") None [IExpr (col "id") "id"; IExpr (ESub bv_sub) "x"].
+Definition bv_rows : value := VArr [VObj [("id", VNum 1%float)]; VObj [("id", VNum 3%float)]].
+
+Example backref_value_differs :
+  avoids ["c"] bk_inner = true /\ blind_select bv_outer = false /\
+  exec no_call no_join 4 (plain ex_d) (JStmt (SSelect bv_outer)) =
+    Ok (VArr [VObj [("id", VNum 1%float); ("x", VObj [("p", VObj ex_d)])];
+              VObj [("id", VNum 3%float); ("x", VObj [("p", VObj ex_d)])]]) /\
+  stage no_call no_join 3 "c" bk_inner bv_outer ex_d =
+    Ok (VArr [VObj [("id", VNum 1%float); ("x", VObj [("p", VObj (bind_doc ex_d "c" bv_rows))])];
+              VObj [("id", VNum 3%float); ("x", VObj [("p", VObj (bind_doc ex_d "c" bv_rows))])]]).
 Proof. vm_compute. repeat split. Qed.
 
 (* ---------- the theorems' premises are met by the examples above ---------- *)
@@ -232,6 +253,7 @@ Example exists_theorem_applies :
 Proof.
   intros cur. split.
   - apply (exists_star no_call no_join 1 (plain ex_d) exists_outer [] cur exists_sub "items" []).
+    + apply no_thunks_plain.
     + exact exists_shape_met.
     + reflexivity.
     + reflexivity.
@@ -249,9 +271,154 @@ Proof.
   split; [|vm_compute; reflexivity].
   apply (in_subquery no_call no_join 2 (plain ex_d) (in_outer neg) [] (kv_of row1) neg (col "id") in_sub
            (RCol ["id"]) (VNum 1%float) [VObj [("p", VNum 1%float)]] [VNum 1%float]).
+  - apply no_thunks_plain.
   - reflexivity.
   - vm_compute. reflexivity.
   - vm_compute. reflexivity.
   - reflexivity.
   - intros c [<-|[]]. eexists. vm_compute. reflexivity.
 Qed.
+
+(* ================================================================== *)
+(* the CTEs of an enclosing query behind `<-`                          *)
+(* ================================================================== *)
+(* every result below is what the real engine returns for the SQL text in the comment on the same
+   document (checked with a Go program against /repo: see REPORT-A.md) *)
+
+Definition lim1 (s : select stmt) : select stmt :=
+  {| s_with := s_with s; s_from := s_from s; s_where := s_where s; s_group := s_group s;
+     s_having := s_having s; s_items := s_items s; s_distinct := s_distinct s; s_order := s_order s;
+     s_limit := Some 1%Z; s_offset := None |}.
+Definition id_eq (n : float) : option (expr stmt) := Some (ECmp OpEq (col "id") (ENum n)).
+Definition ids (l : list float) : value := VArr (map (fun f => VObj [("id", VNum f)]) l).
+
+(* c AS (SELECT id FROM t WHERE n1 >= 2) : rows id 1, 3 *)
+Definition up_c : stmt := bk_inner.
+
+(* E1  WITH c AS (...) SELECT id, (SELECT id FROM `<-.c`) AS x FROM c   — select-list subquery *)
+Definition up_e1 : stmt := SSelect bk_outer.
+
+(* E2  WITH c AS (SELECT id AS cid FROM t WHERE n1 >= 2)
+       SELECT id FROM t WHERE EXISTS (SELECT * FROM `<-.c` WHERE cid = id)   — EXISTS *)
+Definition up_c2 : stmt :=
+  SSelect (sel [] (FTable ["t"] "") (Some (ECmp OpGe (col "n1") (ENum 2%float))) [IExpr (col "id") "cid"]).
+Definition up_e2_sub : stmt :=
+  SSelect (sel [] (FTable ["<-"; "c"] "") (Some (ECmp OpEq (col "cid") (col "id"))) [IStar]).
+Definition up_e2 : stmt :=
+  SSelect (sel [("c", up_c2)] (FTable ["t"] "") (Some (EExists up_e2_sub)) [IExpr (col "id") "id"]).
+
+(* E3  WITH a AS (SELECT id, (SELECT id FROM `<-.a` LIMIT 1) AS x FROM t) SELECT * FROM a
+       — the body of a reads a through `<-` while a is being evaluated: "recursive reference" *)
+Definition up_e3_sub : stmt := SSelect (lim1 (sel [] (FTable ["<-"; "a"] "") None [IExpr (col "id") "id"])).
+Definition up_e3_body : stmt :=
+  SSelect (sel [] (FTable ["t"] "") None [IExpr (col "id") "id"; IExpr (ESub up_e3_sub) "x"]).
+Definition up_e3 : stmt := SSelect (sel [("a", up_e3_body)] (FTable ["a"] "") None [IStar]).
+
+(* E4  WITH c AS (...) SELECT id, (SELECT (SELECT id FROM `<-.<-.c`) AS y FROM dual) AS x
+       FROM t WHERE id = 1   — two queries up *)
+Definition up_e4_sub2 : stmt := SSelect (sel [] (FTable ["<-"; "<-"; "c"] "") None [IExpr (col "id") "id"]).
+Definition up_e4_sub1 : stmt := SSelect (sel [] FDual None [IExpr (ESub up_e4_sub2) "y"]).
+Definition up_e4 : stmt :=
+  SSelect (sel [("c", up_c)] (FTable ["t"] "") (id_eq 1%float) [IExpr (col "id") "id"; IExpr (ESub up_e4_sub1) "x"]).
+
+(* E5  WITH c AS (SELECT id, items FROM t WHERE n1 >= 2)
+       SELECT id, (SELECT p FROM `<-.c.items`) AS x FROM t WHERE id = 2   — a path after the name *)
+Definition up_c5 : stmt :=
+  SSelect (sel [] (FTable ["t"] "") (Some (ECmp OpGe (col "n1") (ENum 2%float)))
+               [IExpr (col "id") "id"; IExpr (col "items") "items"]).
+Definition up_e5_sub : stmt := SSelect (sel [] (FTable ["<-"; "c"; "items"] "") None [IExpr (col "p") "p"]).
+Definition up_e5 : stmt :=
+  SSelect (sel [("c", up_c5)] (FTable ["t"] "") (id_eq 2%float) [IExpr (col "id") "id"; IExpr (ESub up_e5_sub) "x"]).
+
+(* E6  WITH t AS (SELECT id FROM vals) SELECT id, (SELECT * FROM `<-.t`) AS x FROM vals
+       — a CTE and a document table of the same name: behind `<-` the thunk wins *)
+Definition up_c6 : stmt := SSelect (sel [] (FTable ["vals"] "") None [IExpr (col "id") "id"]).
+Definition up_e6_sub : stmt := SSelect (sel [] (FTable ["<-"; "t"] "") None [IStar]).
+Definition up_e6 : stmt :=
+  SSelect (sel [("t", up_c6)] (FTable ["vals"] "") None [IExpr (col "id") "id"; IExpr (ESub up_e6_sub) "x"]).
+
+(* E14 WITH c AS (...) SELECT id FROM c WHERE id IN (SELECT id FROM `<-.c` WHERE id > 1)   — IN *)
+Definition up_e14_sub : stmt :=
+  SSelect (sel [] (FTable ["<-"; "c"] "") (Some (ECmp OpGt (col "id") (ENum 1%float))) [IExpr (col "id") "id"]).
+Definition up_e14 : stmt :=
+  SSelect (sel [("c", up_c)] (FTable ["c"] "") (Some (EInSub false (col "id") up_e14_sub)) [IExpr (col "id") "id"]).
+
+(* E15 WITH c AS (...), b AS (SELECT id, (SELECT id FROM `<-.c`) AS x FROM t WHERE id = 2)
+       SELECT * FROM b   — from inside the body of a sibling CTE *)
+Definition up_b15 : stmt :=
+  SSelect (sel [] (FTable ["t"] "") (id_eq 2%float) [IExpr (col "id") "id"; IExpr (ESub bk_sub) "x"]).
+Definition up_e15 : stmt := SSelect (sel [("c", up_c); ("b", up_b15)] (FTable ["b"] "") None [IStar]).
+
+(* E16 WITH a AS (SELECT id, (SELECT id FROM `<-.b`) AS x FROM t), b AS (SELECT id FROM a)
+       SELECT * FROM b   — a cycle through `<-`: b -> a -> (`<-`) b *)
+Definition up_e16_sub : stmt := SSelect (sel [] (FTable ["<-"; "b"] "") None [IExpr (col "id") "id"]).
+Definition up_a16 : stmt :=
+  SSelect (sel [] (FTable ["t"] "") None [IExpr (col "id") "id"; IExpr (ESub up_e16_sub) "x"]).
+Definition up_b16 : stmt := SSelect (sel [] (FTable ["a"] "") None [IExpr (col "id") "id"]).
+Definition up_e16 : stmt := SSelect (sel [("a", up_a16); ("b", up_b16)] (FTable ["b"] "") None [IStar]).
+
+Example up_select_list_subquery :
+  run_model (false, ex_doc, up_e1) =
+  Ok [VObj [("id", VNum 1%float); ("x", ids [1%float; 3%float])];
+      VObj [("id", VNum 3%float); ("x", ids [1%float; 3%float])]].
+Proof. vm_compute. reflexivity. Qed.
+
+Example up_exists :
+  run_model (false, ex_doc, up_e2) = Ok [VObj [("id", VNum 1%float)]; VObj [("id", VNum 3%float)]].
+Proof. vm_compute. reflexivity. Qed.
+
+Example up_self_reference_error : run_model (false, ex_doc, up_e3) = Err.
+Proof. vm_compute. reflexivity. Qed.
+
+Example up_two_levels :
+  run_model (false, ex_doc, up_e4) =
+  Ok [VObj [("id", VNum 1%float); ("x", VObj [("y", ids [1%float; 3%float])])]].
+Proof. vm_compute. reflexivity. Qed.
+
+Example up_path_after_name :
+  run_model (false, ex_doc, up_e5) =
+  Ok [VObj [("id", VNum 2%float);
+            ("x", VArr [VArr [VObj [("p", VNum 1%float)]];
+                        VArr [VObj [("p", VNum 5%float)]; VObj [("p", VNum 2%float)]]])]].
+Proof. vm_compute. reflexivity. Qed.
+
+Example up_thunk_shadows_table :
+  run_model (false, ex_doc, up_e6) =
+  Ok [VObj [("id", VNull); ("x", VArr [VObj [("id", VNull)]; VObj [("id", VNull)]])];
+      VObj [("id", VNull); ("x", VArr [VObj [("id", VNull)]; VObj [("id", VNull)]])]].
+Proof. vm_compute. reflexivity. Qed.
+
+Example up_in_subquery : run_model (false, ex_doc, up_e14) = Ok [VObj [("id", VNum 3%float)]].
+Proof. vm_compute. reflexivity. Qed.
+
+Example up_from_sibling_body :
+  run_model (false, ex_doc, up_e15) = Ok [VObj [("id", VNum 2%float); ("x", ids [1%float; 3%float])]].
+Proof. vm_compute. reflexivity. Qed.
+
+Example up_cycle_error : run_model (false, ex_doc, up_e16) = Err.
+Proof. vm_compute. reflexivity. Qed.
+
+(* theorem (a) applied: the source rows of the subquery of E1, on the row id = 3, are the rows the
+   enclosing query reads from c *)
+Example up_cte_is_cte_applies :
+  let ctx := register_ctes (plain ex_d) [("c", up_c)] in
+  let cur := scope (kv_of (VObj [("id", VNum 3%float)])) (VObj ex_d) in
+  build_from (exec no_call no_join 3) no_join (sub_ctx ctx cur) (FTable ["<-"; "c"] "") =
+  build_from (exec no_call no_join 3) no_join ctx (FTable ["c"] "") /\
+  build_from (exec no_call no_join 3) no_join ctx (FTable ["c"] "") =
+  Ok (Some [VObj [("id", VNum 1%float)]; VObj [("id", VNum 3%float)]]).
+Proof.
+  intros ctx cur. split.
+  - apply (up_cte_is_cte no_join (exec no_call no_join 3) ctx cur "c" [] "" up_c). reflexivity.
+  - vm_compute. reflexivity.
+Qed.
+
+(* the hiding premise of the staging theorem is met by an inner statement whose subquery reads a
+   document table through `<-`, and is not met when it reads the CTE name *)
+Definition hid_inner (name : string) : stmt :=
+  SSelect (sel [] (FTable ["t"] "") None
+               [IExpr (col "id") "id";
+                IExpr (ESub (SSelect (sel [] (FTable ["<-"; name] "") None [IStar]))) "x"]).
+Example avoids_with_subquery :
+  avoids ["c"] (hid_inner "vals") = true /\ avoids ["c"] (hid_inner "c") = false.
+Proof. vm_compute. split; reflexivity. Qed.
